@@ -293,6 +293,18 @@ def runtime_contract(rec, cls):
             env[TH[1]] = noise / scale
             yield ('long', jsonable(env))
 
+    def integer_cases():
+        # integer-typed inputs (lists of Python ints / integer arrays, as in the docstring examples): the result is that of the same numbers as floats
+        for _ in range(4 if rec.tier == 'quick' else 12):
+            env = Env(instance(cfg, need_p=True)(rng))
+            nn = int(env[n])
+            env['M'] = rng.integers(2, 7, nn).astype(float)
+            env['O'] = rng.integers(1, 8, nn).astype(float)
+            env['Sens'] = rng.integers(-3, 4, (nn, int(env[p]))).astype(float)
+            for t_ in th:
+                env[t_] = float(rng.integers(1, 4))
+            yield ('integer', jsonable(env))
+
     def support_cases():
         for t_bad in range(cfg['nth']):
             for val in (0.0, -0.7):
@@ -322,6 +334,15 @@ def runtime_contract(rec, cls):
         env = unjson_env(envj)
         env['Sens'] = np.array(envj['Sens'], dtype=float).reshape(int(env[n]), int(env[p]))
         thv = [env[t] for t in th]
+        if kind == 'integer':
+            call = {'M': np.array(env['M']).astype(int), 'O': np.array(env['O']).astype(int), 'Sens': np.array(env['Sens']).astype(int)}
+            thi = [int(v_) for v_ in thv]
+            ll = em.compute_log_likelihood(thi, call['M'], call['O'])
+            pw = em.compute_pointwise_ll(thi, call['M'], call['O'])
+            sc, gr = em.compute_sensitivities(thi, call['M'], call['Sens'], call['O'])
+            ll2 = em.compute_log_likelihood(thi, call['M'].tolist(), call['O'].tolist())
+            if not evalx.close(float(ll2), float(ll), 1e-12, 1e-12):
+                return 'integer lists give %r, integer arrays %r' % (ll2, ll)
         if kind == 'inside':
             # callers may keep one array and overwrite it in place between evaluations (the results are functions of the *contents* passed in):
             # the model instance first sees other contents in the very same array objects
@@ -332,9 +353,10 @@ def runtime_contract(rec, cls):
             o_buf[:] = env['O']
             m_buf[:] = env['M']
             env['O'], env['M'] = o_buf, m_buf
-        ll = em.compute_log_likelihood(thv, env['M'], env['O'])
-        pw = em.compute_pointwise_ll(thv, env['M'], env['O'])
-        sc, gr = em.compute_sensitivities(thv, env['M'], env['Sens'], env['O'])
+        if kind != 'integer':
+            ll = em.compute_log_likelihood(thv, env['M'], env['O'])
+            pw = em.compute_pointwise_ll(thv, env['M'], env['O'])
+            sc, gr = em.compute_sensitivities(thv, env['M'], env['Sens'], env['O'])
         if kind == 'outside':
             if not (ll == -np.inf and sc == -np.inf and np.all(np.asarray(pw) == -np.inf)):
                 return 'outside the support: value %r, pointwise %r, score %r (expected -inf)' % (ll, np.asarray(pw).tolist(), sc)
@@ -368,9 +390,9 @@ def runtime_contract(rec, cls):
             if not evalx.close(float(gr[int(env[p]) + t_]), w_, 1e-6, 1e-8):
                 return 'sensitivity w.r.t. error parameter %d is %r, expected %r' % (t_, float(gr[int(env[p]) + t_]), w_)
         return None
-    rec.native_check('%s/runtime-contract' % cls, funcs, list(formula_cases()) + list(long_cases()) + list(support_cases()), one,
+    rec.native_check('%s/runtime-contract' % cls, funcs, list(formula_cases()) + list(integer_cases()) + list(long_cases()) + list(support_cases()), one,
                      'seeded instances inside the support (n in 1..5, p in 1..3, random values; passed in arrays that held other contents in an earlier evaluation of the same model instance) compared with the numerically evaluated '
-                     'specification and its derivative; vectors of 400 observations with outputs of magnitude 1e3 / 1e-3 / 1 (IEEE range); boundary instances of the support clause (each scale parameter 0 and negative; '
+                     'specification and its derivative; the same with integer-typed parameters, outputs, observations and sensitivities; vectors of 400 observations with outputs of magnitude 1e3 / 1e-3 / 1 (IEEE range); boundary instances of the support clause (each scale parameter 0 and negative; '
                      'log-normal: negative/zero outputs at first/last/all/middle positions); distinct by full input')
 
 
